@@ -2,7 +2,8 @@
 
 Space: encode->decode of every value in [0,2^21) (quick 2^16), all 2^k, 2^k+-1; decode of every byte string of length
 <= 3 (quick <= 2) at cursor offsets {0,1,5} with the buffer ending exactly at the string's end, flush against an
-inaccessible page; the empty buffer; strings of length 8..11 with three prefix patterns and every value in the last
+inaccessible page; the empty buffer; a cursor that is already 1, 2, 9, 64 or 4000 bytes past the end of the buffer
+(nothing may be read); strings of length 8..11 with three prefix patterns and every value in the last
 three (quick two) positions.  Oracle: exact arithmetic in the driver (unsigned __int128), itself cross-checked against
 the Python reference decoder on every string of length <= 2.
 """
@@ -18,6 +19,7 @@ def jobs(ctx):
     for lo in range(0, 256, step):
         out.append("decode first=%d-%d maxlen=%d offsets=0,1,5" % (lo, lo + step - 1, maxlen))
     out.append("empty offsets=0,1,5")
+    out.append("beyond")
     tail = 2 if quick else 3
     for ln in (8, 9, 10, 11):
         for prefix in (0, 1, 2):
